@@ -5,6 +5,7 @@ mod model;
 mod mon;
 mod msched;
 mod props;
+mod tsched;
 mod valenum;
 mod world;
 
@@ -36,6 +37,8 @@ fn main() {
         "dump" => cmd_dump(&args),
         "procenum" => cmd_procenum(&args),
         "stress-dl" => cmd_stress_dl(&args),
+        "tsched" => cmd_tsched(&args),
+        "tsched-replay" => cmd_tsched_replay(&args),
         "stress-ids" => cmd_stress_ids(&args),
         "valenum" => {
             let what = args.get(2).map(|s| s.as_str()).unwrap_or("");
@@ -519,6 +522,47 @@ fn cmd_stress_dl(args: &[String]) {
 #[cfg(not(feature = "f_testutils"))]
 fn cmd_stress_dl(_args: &[String]) {
     println!("{}", serde_json::json!({"error": "needs f_testutils"}));
+}
+
+/// rsv tsched --prop C11 [--cap N] [--out file]: every interleaving of the operations on rsactor's process-wide
+/// state between real OS threads (hook H4), for the thread scenarios of one property.
+fn cmd_tsched(args: &[String]) {
+    let prop = arg(args, "--prop").unwrap_or_else(|| "C11".into());
+    let cap: u64 = arg(args, "--cap").and_then(|s| s.parse().ok()).unwrap_or(200_000);
+    let only = arg(args, "--only");
+    let t0 = std::time::Instant::now();
+    let mut reports = Vec::new();
+    for s in tsched::scenarios_for(&prop) {
+        if let Some(o) = &only {
+            if s != o {
+                continue;
+            }
+        }
+        reports.push(tsched::explore(s, cap));
+    }
+    let res = serde_json::json!({"prop": prop, "reports": reports, "wall_s": t0.elapsed().as_secs_f64()});
+    let text = serde_json::to_string(&res).unwrap();
+    match arg(args, "--out") {
+        Some(f) => std::fs::write(f, text).unwrap(),
+        None => println!("{text}"),
+    }
+}
+
+/// rsv tsched-replay <replay.json>: run one recorded thread schedule again (twice) and print what it shows.
+fn cmd_tsched_replay(args: &[String]) {
+    let path = args.get(2).expect("replay file");
+    let v: serde_json::Value = serde_json::from_str(&std::fs::read_to_string(path).unwrap()).unwrap();
+    let scenario = v["scenario"].as_str().unwrap().to_string();
+    let schedule: Vec<u8> = v["schedule"].as_array().unwrap().iter().map(|x| x.as_u64().unwrap() as u8).collect();
+    let mut all = Vec::new();
+    for _ in 0..2 {
+        let (ex, out) = tsched::run_scenario(&scenario, &schedule);
+        all.push(serde_json::json!({"error": ex.error, "choices": ex.choices, "summary": out.summary, "violations": out.violations}));
+    }
+    let same = all[0] == all[1];
+    let violated = all[0]["violations"].as_array().map(|a| !a.is_empty()).unwrap_or(false);
+    println!("{}", serde_json::json!({"scenario": scenario, "runs": all, "deterministic": same, "violated": violated}));
+    std::process::exit(if violated { 1 } else { 0 });
 }
 
 fn cmd_bthreads(args: &[String]) {
